@@ -83,13 +83,16 @@ def _batch(pid, specs, order0, want_digests, sample_every):
         except Exception:
             agg["errors"].append((spec, traceback.format_exc()))
             continue
-        agg["runs"] += 1
-        agg["per_scenario"][spec["scenario"]] += 1
+        agg["runs"] += res.get("evals", 1)
+        agg["per_scenario"][spec["scenario"]] += res.get("evals", 1)
         agg["faults"].update(res.get("faults") or {})
         agg["probes"].update(res.get("probes") or {})
         agg["sim_s"] += res.get("vt", 0.0)
         agg["iters"] += res.get("iters", 0)
-        if res.get("nontrivial", True):
+        if res.get("sigs") is not None:
+            agg["sigs"].update(res["sigs"])
+            agg["nontrivial"] += len(res["sigs"])
+        elif res.get("nontrivial", True):
             agg["nontrivial"] += 1
             sig = res.get("sig")
             if sig is not None:
@@ -483,8 +486,7 @@ def write_evidence(pid, prop, plan, tier, seed, agg, wall, nviol, sweep_total, e
         "samples": agg["samples"][:6] or ["<no sample recorded>"],
         "exhaustive": bool(exhaustive_note) and not nviol,
         "exhaustive_subspace": exhaustive_note or "",
-        "sweep_cases": sweep_total,
-        "random_runs": agg["runs"] - sweep_total,
+        "sweep_specs": sweep_total,
         "per_scenario": dict(agg["per_scenario"]),
         "simulated_seconds": round(agg["sim_s"], 3),
         "loop_iterations": agg["iters"],
